@@ -354,6 +354,13 @@ class HTTP(BaseComponent):
 
         req, res = e.args[:2]
 
+        if isinstance(value, tuple) or (isinstance(value, Value) and value.errors):
+            # The failure is reported by an ``exception`` event as well:
+            # answer it once (see _on_exception).
+            if req.handled:
+                return
+            req.handled = True
+
         if value is None:
             self.fire(notfound(req, res))
         elif isinstance(value, httperror):
@@ -411,6 +418,11 @@ class HTTP(BaseComponent):
             req = res.request
         elif isinstance(fevent.value.parent.event, request):
             req, res = fevent.value.parent.event.args[:2]
+            # Ignore failures already answered by _on_request_success
+            # or _on_request_failure.
+            if req.handled:
+                return
+            req.handled = True
         elif len(fevent.args[2:]) == 4:
             req, res = fevent.args[2:]
         elif len(fevent.args) == 2 and isinstance(fevent.args[0], socket):
